@@ -49,7 +49,7 @@ def run(tier, seed):
         q = dict(p)
         q["obs"] = ([{"obs": "run", "solver": "euler", "params": pv}] if solver_ok else []) + \
                    [{"obs": "oracle", "name": "c14", "program": checklib.strip_meta(dict(p, obs=[])), "params": pv,
-                     "seed": seed, "exhaustive": tier == "thorough"}]
+                     "seed": seed, "exhaustive": tier == "thorough", "ratio": len(progs) % 2 == 0 and len(names) <= 4}]
         progs.append(q)
         # ... and whitelisted variants compared with the model
         if solver_ok:
